@@ -2176,10 +2176,10 @@ def m_mem_swap(eng, st, fr, t, name, rname, args):
 def m_mem_take_int(eng, st, fr, t, name, rname, args):
     r = eng.resolve(st, args[0])
     g = tuple(t["callee"].get("gargs") or ())
-    if not isinstance(r, RefV) or not g or g[0] not in _INT_RANGE:
+    if not isinstance(r, RefV) or not g or (g[0] not in _INT_RANGE and g[0] != "bool"):
         return NotImplemented
     old = eng.resolve(st, load(Loc(r.cell, r.path)))
-    store(Loc(r.cell, r.path), K(0))
+    store(Loc(r.cell, r.path), K(False) if g[0] == "bool" else K(0))
     return old
 
 
